@@ -33,6 +33,9 @@ def main():
         print("patch does not apply:", r.stderr)
         return 2
     out = {"mutant": str(d), "checks": {}}
+    import shutil, tempfile
+    ev_backup = tempfile.mkdtemp(prefix="evidence_")
+    shutil.copytree(ROOT / "evidence", ev_backup, dirs_exist_ok=True)
     try:
         demo = d / "demo.py"
         if demo.exists():
@@ -54,6 +57,12 @@ def main():
             print(f"  {p}: {mark} {' | '.join(l[:140] for l in lines if l.startswith('VIOLATION'))}")
     finally:
         sh("git -C /repo checkout -- . && git -C /repo clean -fdq src")
+        # evidence and generated files must describe the UNCHANGED tree
+        shutil.copytree(ev_backup, ROOT / "evidence", dirs_exist_ok=True)
+        shutil.rmtree(ev_backup, ignore_errors=True)
+        sh(f"python3 {ROOT}/tools/extract.py")
+        for f in (ROOT / "replays").glob("*.json"):
+            f.unlink()
         st = sh("git -C /repo status --porcelain").stdout.strip()
         print("repo restored:", "clean" if not st else st)
     if demo.exists():
